@@ -34,7 +34,11 @@ def run(ctx, rep, tier):
     for q in ("Circuit::expandCellsToDensity", "Circuit::expandCellsByFactor"):
         f = prog.func1(CQ + q)
         tw = {w for w in trans[f.key]["writes"] if w.startswith(CQ + "Circuit::")}
-        extra = tw - {CQ + "Circuit::cellWidth_"}
+        import json as _json, os as _os
+        from ..frontend import VERIF as _V
+        schema = _json.load(open(_os.path.join(_V, "rules", "c03.json")))
+        observable = {CQ + "Circuit::" + m for m in schema["protected_members"] + ["cellX_", "cellY_", "cellOrientation_"]}
+        extra = (tw - {CQ + "Circuit::cellWidth_"}) & observable
         if extra:
             for w in sorted(extra):
                 rep.violation("W5", f.decl, f, "%s may write %s" % (f.short, short(w)), "expansion changes only the widths of movable cells",
